@@ -3,8 +3,10 @@ pub mod c20;
 pub mod c21;
 pub mod ingest_props;
 pub mod ingestworld;
+pub mod store_props;
+pub mod storeworld;
 pub mod syncworld;
 
 pub fn all() -> Vec<&'static dyn simcore::Property> {
-    vec![&ingest_props::C01, &ingest_props::C03, &ingest_props::C05, &c19::C19, &c20::C20, &c21::C21]
+    vec![&ingest_props::C01, &ingest_props::C03, &ingest_props::C05, &store_props::C08, &store_props::C09, &c19::C19, &c20::C20, &c21::C21]
 }
